@@ -1,6 +1,9 @@
 package main
 
-import "fmt"
+import (
+	"fmt"
+	"strings"
+)
 
 // Happens-before race detection inside the symbolic executor (vector clocks, FastTrack style).
 // The engine runs one goroutine at a time, so no interleaving is explored; but for the execution
@@ -45,6 +48,9 @@ func (in *Interp) raceAccess(addr *Value, write bool) {
 	if !in.raceOn || addr == nil || len(in.sched.all) < 2 {
 		return
 	}
+	if len(in.stack) > 0 && strings.Contains(fnName(in.stack[len(in.stack)-1]), ".verif") {
+		return // the machinery's own hooks (build tag verif) are not the code under test
+	}
 	g := in.sched.cur
 	sh := in.shadows[addr]
 	if sh == nil {
@@ -79,4 +85,22 @@ func (in *Interp) raceReport(write, otherWrite bool, other int) {
 	kind := map[bool]string{true: "write", false: "read"}
 	in.ex.violation("race", fmt.Sprintf("data race: %s in %s at %s:%d is not ordered with a %s by goroutine %q",
 		kind[write], fn, shortFile(pos.Filename), pos.Line, kind[otherWrite], in.sched.all[other].name), in.ex.model)
+}
+
+// raceMapAccess: a map is one location for the happens-before check (as for Go's race detector,
+// which instruments map operations as accesses of the map header): lookups and iteration read it,
+// updates and deletes write it.
+func (in *Interp) raceMapAccess(m *MapV, write bool) {
+	if !in.raceOn || m == nil {
+		return
+	}
+	if in.mapCells == nil {
+		in.mapCells = map[*MapV]*Value{}
+	}
+	c := in.mapCells[m]
+	if c == nil {
+		c = new(Value)
+		in.mapCells[m] = c
+	}
+	in.raceAccess(c, write)
 }
